@@ -78,14 +78,46 @@ class DefaultEvaluatorStep(PlanStep):
         """
         config = EnOptConfig.model_validate(config, context=transforms)
 
-        self.emit_event(
-            Event(
-                event_type=EventType.START_EVALUATOR_STEP,
-                config=config,
-                source=self.id,
+        # The evaluation may be aborted from the evaluator, or from any event
+        # handler or observer, including those reacting to the start and finish
+        # events of this step:
+        try:
+            self.emit_event(
+                Event(
+                    event_type=EventType.START_EVALUATOR_STEP,
+                    config=config,
+                    source=self.id,
+                )
             )
-        )
+            exit_code = self._run_evaluation(config, transforms, variables, metadata)
+        except OptimizationAborted as exc:
+            exit_code = exc.exit_code
 
+        if exit_code == OptimizerExitCode.USER_ABORT:
+            self.plan.abort()
+
+        try:
+            self.emit_event(
+                Event(
+                    event_type=EventType.FINISHED_EVALUATOR_STEP,
+                    config=config,
+                    source=self.id,
+                )
+            )
+        except OptimizationAborted as exc:
+            exit_code = exc.exit_code
+            if exit_code == OptimizerExitCode.USER_ABORT:
+                self.plan.abort()
+
+        return exit_code
+
+    def _run_evaluation(
+        self,
+        config: EnOptConfig,
+        transforms: OptModelTransforms | None,
+        variables: ArrayLike | None,
+        metadata: dict[str, Any] | None,
+    ) -> OptimizerExitCode:
         if variables is None:
             variables = config.variables.initial_values
         variables = np.array(np.asarray(variables, dtype=np.float64), ndmin=1)
@@ -142,17 +174,6 @@ class DefaultEvaluatorStep(PlanStep):
                     data=data,
                 )
             )
-
-        if exit_code == OptimizerExitCode.USER_ABORT:
-            self.plan.abort()
-
-        self.emit_event(
-            Event(
-                event_type=EventType.FINISHED_EVALUATOR_STEP,
-                config=config,
-                source=self.id,
-            )
-        )
 
         return exit_code
 
